@@ -148,8 +148,16 @@ def check_read(spec):
     kw = read_kwargs(spec, r["sep"])
     if r["infer"]:
         kw.pop("dtype")
-    if not r["header"]:
+    if not r["header"] and r.get("names", True):
         kw.update(header=None, names=[c["name"] for c in spec["columns"]])
+    elif not r["header"]:
+        # header=None WITHOUT names: the columns are labelled 0..n-1; dtype / parse_dates are given by position
+        pos = {c["name"]: i for i, c in enumerate(spec["columns"])}
+        kw["header"] = None
+        if "dtype" in kw:
+            kw["dtype"] = {pos[k]: v for k, v in kw["dtype"].items()}
+        if "parse_dates" in kw:
+            kw["parse_dates"] = [pos[k] for k in kw["parse_dates"]]
     if r["skiprows"]:
         kw["skiprows"] = r["skiprows"]
     if r["na_rep"]:
@@ -239,6 +247,7 @@ def read_case(draw):
         "term": draw(st.sampled_from(["\n", "\n", "\r\n"])),
         "quoting": draw(st.sampled_from([csv.QUOTE_MINIMAL, csv.QUOTE_ALL, csv.QUOTE_NONNUMERIC])),
         "header": draw(st.sampled_from([True, True, False])),
+        "names": draw(st.booleans()),
         # with skiprows dask cuts its dtype-inference sample down to blocksize bytes (and warns): inference is then
         # documented to be unreliable, so the inferring variant never skips rows
         "skiprows": 0 if infer else draw(st.sampled_from([0, 0, 1, 3])),
